@@ -24,3 +24,30 @@ pub fn thread_cpu_ns() -> u64 {
     }
     ts.tv_sec as u64 * 1_000_000_000 + ts.tv_nsec as u64
 }
+
+extern "C" {
+    fn syscall(num: i64, ...) -> i64;
+    fn sysconf(name: i32) -> i64;
+}
+
+/// kernel thread id of the calling thread (Linux x86_64: SYS_gettid = 186)
+pub fn gettid() -> u64 {
+    if cfg!(miri) {
+        return 0;
+    }
+    (unsafe { syscall(186) }) as u64
+}
+
+/// CPU time (user + system) consumed so far by the thread `tid` of this process, read from procfs; `None` when
+/// the thread is gone. Resolution: one clock tick.
+pub fn cpu_ns_of_tid(tid: u64) -> Option<u64> {
+    let text = std::fs::read_to_string(format!("/proc/self/task/{}/stat", tid)).ok()?;
+    // the command name (field 2) is parenthesised and may contain spaces: fields are counted after the last ')'
+    let rest = &text[text.rfind(')')? + 1..];
+    let f: Vec<&str> = rest.split_whitespace().collect();
+    // rest starts at field 3 (state): utime = field 14 -> index 11, stime = field 15 -> index 12
+    let utime: u64 = f.get(11)?.parse().ok()?;
+    let stime: u64 = f.get(12)?.parse().ok()?;
+    let hz = (unsafe { sysconf(2) }).max(1) as u64; // _SC_CLK_TCK
+    Some((utime + stime) * 1_000_000_000 / hz)
+}
